@@ -928,7 +928,22 @@ def c05_compare(project, obs1, obsn):
     if a == b:
         if set(obs1["outcome"]) != set(obsn["outcome"]) or obs1["outcome"].get("returned") != obsn["outcome"].get("returned"):
             return [F("C05/outcome-differs", "1 thread: %r, N threads: %r" % (obs1["outcome"], obsn["outcome"]))]
-        return []
+        # the SAVED report (what the real file backends wrote, read back by the real loader) is the same too
+        out = []
+        for name in sorted(set(obs1.get("saved") or {}) & set(obsn.get("saved") or {})):
+            s1, sn = obs1["saved"][name], obsn["saved"][name]
+            if s1["exists"] != sn["exists"] or (s1["error"] is None) != (sn["error"] is None):
+                out.append(F("C05/saved-report-differs/" + name, "1 thread: exists=%s error=%s; N threads: exists=%s error=%s"
+                             % (s1["exists"], s1["error"], sn["exists"], sn["error"])))
+            elif s1["view"] is not None and sn["view"] is not None:
+                if name == "junit":
+                    fa, fb = s1["view"], sn["view"]
+                else:
+                    fa, fb = normal_form(s1["view"], obs1.get("attachments")), normal_form(sn["view"], obsn.get("attachments"))
+                if fa != fb:
+                    out.append(F("C05/saved-report-differs/" + name, "the file saved by the N-thread run differs from the one saved by the "
+                                 "1-thread run although the in-memory reports are equal: %s" % _first_diff(fa, fb), _first_diff(fa, fb)))
+        return out
     where = _first_diff(a, b)
     if "raised" in obsn["outcome"] and "raised" not in obs1["outcome"]:
         return [F("C05/run-raised-with-threads/" + obsn["outcome"]["raised"], "N-thread run raised: %s" % obsn["outcome"]["text"][:200], where)]
@@ -1124,6 +1139,25 @@ def c07(project, obs, view=None):
         out.append(F("C07/stream-truncated", "the event handler thread died (no fault injected): the backend received %d of %d events" % (len(handled), len(fires))))
         for sig, msg in recognise(fires, project["nb_threads"], complete="returned" in obs["outcome"]):
             out.append(F("C07/fired/" + sig, msg))
+    # EVERY reporting backend: a listener receives every handled event it has a handler for — once, in order — whatever
+    # other listeners (of its own class or not) were registered before it, in this run or in an earlier one of the process
+    names = obs.get("fire_names") or []
+    ks = [k for _, k in v.handled if k < len(names)]
+    for i, ls in enumerate(obs.get("listeners") or []):
+        want = [[k, names[k]] for k in ks if names[k] in ls["events"]]
+        got = [list(x) for x in ls["got"]]
+        if got != want:
+            missing = [x for x in want if x not in got]
+            extra = [x for x in got if x not in want]
+            if missing:
+                ends = sorted({n for _, n in missing})
+                out.append(F("C07/listener/event-not-delivered",
+                             "listener #%d (handlers: %s) never received %d of the %d events it has a handler for (%s), e.g. %r"
+                             % (i, ls["shape"], len(missing), len(want), ", ".join(ends)[:200], missing[0])))
+            elif extra:
+                out.append(F("C07/listener/event-delivered-without-handler-or-twice", "listener #%d (%s) received %r" % (i, ls["shape"], extra[0])))
+            else:
+                out.append(F("C07/listener/events-out-of-order", "listener #%d (%s) received its events in another order than they were handled" % (i, ls["shape"])))
     seen, res = set(), []
     for f in out:
         if f.signature not in seen:
@@ -1307,15 +1341,20 @@ def c11(project, obs, view=None):
     if v.hang or obs.get("watchdog"):
         return [F("C11/hang", "the run hangs after the backend raised on event %d" % k, obs.get("dump"))]
     text = (obs.get("fault") or {}).get("text") or ""
+    # (a BaseException that is no Exception — GeneratorExit, SystemExit, KeyboardInterrupt raised inside a handler — gets
+    # its own signature suffix: finding D42; every other class keeps the plain signatures)
+    sfx = ("/not-an-Exception:" + cls) if cls in ("GeneratorExit", "SystemExit", "KeyboardInterrupt") else ""
     if "returned" in oc:
-        out.append(F("C11/fault-silently-ignored", "backend raised %s on event %d but run_suites returned %r" % (cls, k, oc["returned"])))
+        out.append(F("C11/fault-silently-ignored" + sfx, "backend raised %s on event %d but run_suites returned %r" % (cls, k, oc["returned"])))
     elif text.strip() and text.strip() not in oc.get("text", ""):
         # (the text is looked for without its leading / trailing blanks: KeyError and friends show their argument
         # repr()-escaped, so a line break at its edge reads "\\n" there — the words of the message are what must survive)
-        out.append(F("C11/original-text-lost/" + cls, "caller saw %s(%r) without the original text %r" % (oc["raised"], oc["text"][:200], text)))
+        # (D42 again when the class is no Exception: the fault is lost, what the caller sees is another error of the run —
+        # e.g. the text of a pre_run teardown that raised)
+        out.append(F("C11/original-text-lost/" + (sfx[1:] if sfx else cls), "caller saw %s(%r) without the original text %r" % (oc["raised"], oc["text"][:200], text)))
     pf = obs.get("pending_failure_at")
     if pf is None:
-        out.append(F("C11/fault-not-recorded", "the backend raised but no pending failure was recorded"))
+        out.append(F("C11/fault-not-recorded" + sfx, "the backend raised %s but no pending failure was recorded" % cls))
     else:
         for ti, g in enumerate(v.tasks):
             if g["kind"] != "test":
